@@ -65,7 +65,19 @@ def opFactor : Handler := fun args impl =>
       let exact := a.length ≤ 1 ||
         (let pp := (NTV.PolyG.contPP a).2
          NTV.Res.exact (NTV.Res.resultantSmartGcdE pp (NTV.PolyG.differential pp)))
-      (model, if !exact then "fail:inexact-division-in-model" else verdictOf a expected impl)
+      let v0 := if !exact then "fail:inexact-division-in-model" else verdictOf a expected impl
+      -- where the direct oracle cannot decide irreducibility, the model's answer on the same history is
+      -- THE factorisation (theorems `factors_irreducible`, `product_identity`, `complete`): an answer with
+      -- other factors (as a multiset) is wrong
+      let v :=
+        if v0.startsWith "skip" then
+          match NTV.PolyZ.factorize a (parseChunks ds), parseAnswer? impl with
+          | .ok r, some (c, fac) =>
+            let key := fun (l : Fac) => (l.map (fun fe => s!"{showInts fe.1}^{fe.2}")).mergeSort (· ≤ ·)
+            if c == r.1 && key fac == key r.2 then v0 else "fail:differs-from-the-proved-factorisation"
+          | _, _ => v0
+        else v0
+      (model, v)
     | _, _ => bad
   | _ => bad
 
